@@ -292,6 +292,20 @@ def gen_bound_programs():
         ('dumb', hdr + '#[codec(dumb_trait_bound)]\npub struct G<T>(PhantomData<T>, u8);\n', ['enc::<G<u8>>()', 'dec::<G<u8>>()'], ['enc::<G<NoCodec>>()', 'dec::<G<NoCodec>>()']),
         ('custom_bounds', hdr + '#[codec(encode_bound(T: Default))]\n#[codec(decode_bound(T: Default))]\npub struct G<T>(PhantomData<T>, u8);\n',
          ['enc::<G<DefOnly>>()', 'dec::<G<DefOnly>>()'], ['enc::<G<NoCodec>>()', 'dec::<G<NoCodec>>()']),
+        # a custom bound replaces the *generated* predicates only: the definition's own where clause stays in the impl header
+        # (an impl that drops it does not type-check, E0277: valid input rejected)
+        ('custom_bounds_where', hdr + '#[codec(encode_bound(T: Encode))]\n#[codec(decode_bound(T: Decode))]\npub struct G<T> where T: Clone { a: T, b: u8 }\n',
+         ['enc::<G<u8>>()', 'dec::<G<u8>>()'], ['enc::<G<DefOnlyClone>>()']),
+        ('custom_bounds_where_const', hdr + '#[codec(encode_bound(T: Encode))]\n#[codec(decode_bound(T: Decode))]\npub enum G<T, const N: usize> where [T; N]: Default { A([T; N]), B }\n',
+         ['enc::<G<u8, 4>>()', 'dec::<G<u8, 4>>()'], []),
+        ('empty_bounds_where', hdr + '#[codec(encode_bound())]\n#[codec(decode_bound())]\npub struct G<T> where T: Clone { a: PhantomData<T>, b: u8 }\n',
+         ['enc::<G<DefOnlyClone>>()', 'dec::<G<DefOnlyClone>>()'], []),
+        ('skip_params_where', '#[derive(Encode, MaxEncodedLen)]\n#[codec(crate = ::parity_scale_codec)]\n#[codec(mel_bound(skip_type_params(T)))]\npub struct G<T> where T: Clone { a: PhantomData<T>, b: u8 }\n',
+         ['mel::<G<DefOnlyClone>>()'], []),
+        ('mel_bound_where', '#[derive(Encode, MaxEncodedLen)]\n#[codec(crate = ::parity_scale_codec)]\n#[codec(mel_bound(T: MaxEncodedLen))]\npub struct G<T> where T: Clone { a: T, b: u8 }\n',
+         ['mel::<G<u8>>()'], []),
+        ('track_bound_where', '#[derive(Encode, Decode, DecodeWithMemTracking)]\n#[codec(crate = ::parity_scale_codec)]\n#[codec(decode_with_mem_tracking_bound(T: DecodeWithMemTracking))]\npub struct G<T> where T: Clone { a: T, b: u8 }\n',
+         ['trk::<G<u8>>()'], []),
         ('empty_bounds', hdr + '#[codec(encode_bound())]\n#[codec(decode_bound())]\npub struct G<T>(PhantomData<T>, u8);\n', ['enc::<G<NoCodec>>()', 'dec::<G<NoCodec>>()'], []),
         ('mel_plain', '#[derive(Encode, MaxEncodedLen)]\n#[codec(crate = ::parity_scale_codec)]\npub struct G<T>(T, u8);\n', ['mel::<G<u8>>()'], ['mel::<G<Vec<u8>>>()']),
         ('mel_skip', '#[derive(Encode, MaxEncodedLen)]\n#[codec(crate = ::parity_scale_codec)]\npub struct G<T> { #[codec(skip)] a: T, b: u8 }\n', ['mel::<G<Vec<u8>>>()', 'mel::<G<NoCodec>>()'], []),
